@@ -5,6 +5,9 @@
 //	lc-rs  Lean reference client         <-> real server (WrapConn)  (+ Lean shadow server)
 //	conc   16 real<->real sessions truly in parallel; afterwards the Lean reference follows each from
 //	       its recorded wire bytes and the client's session key (same KEY_SEED/AUTH, frames decode)
+//	duplex real <-> real (pipe) and real <-> reference with a Read and a Write in progress AT ONCE on
+//	       every real endpoint; every frame on the wire is decoded by the reference: well-formed packet,
+//	       zero padding, payload = the next bytes the application wrote
 //	rr     real client <-> real server, every byte either endpoint emits re-derived by two Lean
 //	       shadows that are handed exactly the random bytes the real endpoints drew
 //
@@ -47,16 +50,18 @@ type ccase struct {
 	ChunkDown string `json:"chunk_down"` // chunking of the server response
 	HourOff   int    `json:"hour_off"`   // lc-rs: the reference client's clock, rc-ls: the reference server's clock, relative to the real one
 	NWrites   int    `json:"n_writes"`
-	Big       bool   `json:"big"` // include a 64 KiB write
+	Big       bool   `json:"big"`              // include a 64 KiB write
+	Duplex    int    `json:"duplex,omitempty"` // bytes each way in the final full-duplex phase (Read and Write in progress at once)
 }
 
 func (c ccase) key() string { b, _ := json.Marshal(c); return string(b) }
 
 var (
-	K      = map[string]int{}
-	r      *vlib.Run
-	ref    *o4h.Ref
-	frames = map[string]int{}
+	duplexFailures int // after three failing full-duplex phases the remaining cases skip theirs (each costs a timeout)
+	K              = map[string]int{}
+	r              *vlib.Run
+	ref            *o4h.Ref
+	frames         = map[string]int{}
 )
 
 func cint(name string) int {
@@ -696,6 +701,17 @@ func runCase(c ccase) (retry bool) {
 			return
 		}
 	}
+	if c.Duplex > 0 && (duplexFailures < 3 || r.ReplayIn != "") {
+		if c.Scenario == "rc-ls" && !duplexBurst(c, "client", cliEp, shadowS, rng) {
+			duplexFailures++
+			return
+		}
+		if c.Scenario == "lc-rs" && !duplexBurst(c, "server", srvEp, shadowC, rng) {
+			duplexFailures++
+			return
+		}
+		r.Count("duplex", c.Scenario)
+	}
 	r.Case(c.key(), exact >= 2)
 	r.Sample(5, map[string]interface{}{"case": c, "client_handshake_len": len(blob), "response_plus_seed_len": len(resp),
 		"client_tape": len(cliTape), "server_tape": len(srvTape)})
@@ -707,6 +723,268 @@ func runCase(c ccase) (retry bool) {
 		}
 	}
 	return false
+}
+
+// ---------------------------------------------------------------- full duplex
+
+// decodeAll: the reference decoder over a recorded wire stream (in pieces): every frame must decode
+// to a well-formed packet with zero padding, and the type-0 payloads, in order, must be exactly
+// what the application wrote.
+func decodeAll(c ccase, who, sess string, wire, want []byte) bool {
+	var got []byte
+	nf := 0
+	for off := 0; off < len(wire); off += 60000 {
+		end := off + 60000
+		if end > len(wire) {
+			end = len(wire)
+		}
+		d := ref.Dec(sess, wire[off:end])
+		for _, p := range d.Pkts {
+			nf++
+			if !p.Zero {
+				violate("padding-not-zero", "impl-oracle", fmt.Sprintf("%s (full duplex): frame %d carries non-zero padding (type %d, %d payload bytes, %d padding bytes)", who, nf, p.Type, len(p.Payload), p.PadLen), c)
+				return false
+			}
+			if p.Type == 0 {
+				got = append(got, p.Payload...)
+			} else {
+				violate("unexpected-packet-type", "impl-oracle", fmt.Sprintf("%s (full duplex): frame %d has packet type %d", who, nf, p.Type), c)
+				return false
+			}
+			if !bytes.Equal(got, want[:imin(len(got), len(want))]) {
+				violate("frame-payload-not-what-was-written", "impl-oracle",
+					fmt.Sprintf("%s (full duplex, a Read and a Write in progress at once): frame %d is tag-valid but its payload is not the next bytes the application wrote (first difference at stream offset %d)", who, nf, firstDiff(got, want)), c)
+				return false
+			}
+		}
+		if d.Class != "ok" {
+			violate("ref-cannot-decode-real-frames", "impl-oracle", fmt.Sprintf("%s (full duplex): after %d frames the reference decoder answers %q", who, nf, d.Raw), c)
+			return false
+		}
+	}
+	if !bytes.Equal(got, want) {
+		violate("payload-differs", "impl-oracle", fmt.Sprintf("%s (full duplex): the frames carry %d payload bytes, %d were written", who, len(got), len(want)), c)
+		return false
+	}
+	frames["duplex-"+who] += nf
+	return true
+}
+
+func writeChunks(conn net.Conn, data []byte, rng *vlib.Rng) error {
+	for len(data) > 0 {
+		n := rng.Range(1, 6000)
+		if n > len(data) {
+			n = len(data)
+		}
+		if _, err := conn.Write(data[:n]); err != nil {
+			return err
+		}
+		data = data[n:]
+	}
+	return nil
+}
+
+// duplexBurst: the real endpoint `ep` (on a ScriptConn) writes `up` while it reads what the
+// reference peer `peer` sends at the same time (frames pre-encoded by the reference, mixed packet
+// kinds).  Read must deliver exactly the reference's payload; the frames the endpoint wrote are
+// then decoded by the reference.
+func duplexBurst(c ccase, who string, ep *o4h.Endpoint, peer string, rng *vlib.Rng) bool {
+	conn, _ := ep.Result()
+	down, up := rng.Bytes(c.Duplex), rng.Bytes(c.Duplex)
+	wire, _, cls := encMixed(peer, rng, down)
+	if cls != "ok" {
+		violate("reference-encoder-failed", "correspondence", "enc: "+cls, c)
+		return false
+	}
+	ep.Conn.TakeWrites()
+	var wg sync.WaitGroup
+	var rerr, werr error
+	got := make([]byte, len(down))
+	wrng := rng.Fork()
+	wg.Add(3)
+	go func() { defer wg.Done(); _, rerr = io.ReadFull(conn, got) }()
+	go func() { defer wg.Done(); werr = writeChunks(conn, up, wrng) }()
+	go func() {
+		defer wg.Done()
+		for off := 0; off < len(wire); off += 1448 {
+			end := off + 1448
+			if end > len(wire) {
+				end = len(wire)
+			}
+			ep.Conn.Feed(wire[off:end])
+			runtime.Gosched()
+		}
+	}()
+	done := make(chan struct{})
+	go func() { wg.Wait(); close(done) }()
+	select {
+	case <-done:
+	case <-time.After(15 * time.Second):
+		ep.Conn.Close()
+		<-done
+		violate("duplex-stuck", "impl-oracle", who+": full-duplex phase (a few dozen KiB each way) did not finish within 15 s", c)
+		return false
+	}
+	if rerr != nil || werr != nil {
+		violate("duplex-endpoint-error", "impl-oracle", fmt.Sprintf("%s: with a Read and a Write in progress at once: Read error %v, Write error %v", who, rerr, werr), c)
+		return false
+	}
+	if !bytes.Equal(got, down) {
+		violate("payload-not-delivered", "impl-oracle", fmt.Sprintf("%s (full duplex): Read delivered bytes the reference peer never sent (first difference at %d of %d)", who, firstDiff(got, down), len(down)), c)
+		return false
+	}
+	return decodeAll(c, who, peer, ep.Conn.TakeWritten(), up)
+}
+
+// runDuplex: real client <-> real server over a pipe, both directions recorded; after the handshake
+// each endpoint runs a writer and a reader goroutine AT THE SAME TIME.  Both Reads must deliver
+// exactly what the peer wrote, and afterwards the reference (from the client's session key and the
+// recorded bytes) decodes every frame of both directions.
+func runDuplex(c ccase) (retry bool) {
+	if runtime.GOMAXPROCS(0) < 8 {
+		runtime.GOMAXPROCS(8)
+	}
+	rng := vlib.NewRng(c.CaseSeed)
+	o4h.InstallTape(c.CaseSeed)
+	id := o4h.NewIdentity(rng, c.SrvIat)
+	sf := id.ServerFactory()
+	cf := o4h.ClientFactory()
+	hour0 := o4h.Hour()
+	a, b := net.Pipe()
+	ca, cb := &o4h.RecConn{Conn: a}, &o4h.RecConn{Conn: b}
+	wd := time.AfterFunc(30*time.Second, func() { a.Close(); b.Close() })
+	defer wd.Stop()
+	args, err := cf.ParseArgs(id.ClientArgs(c.Format, c.CliIat))
+	if err != nil {
+		violate("parseargs-rejects-bridge-line", "impl-oracle", err.Error(), c)
+		return
+	}
+	_, _, kp, _, _ := obfs4.VerifClientArgs(args)
+	type res struct {
+		conn net.Conn
+		err  error
+	}
+	sch := make(chan res, 1)
+	go func() { sc, err := sf.WrapConn(cb); sch <- res{sc, err} }()
+	cc, cerr := cf.Dial("tcp", "x", func(string, string) (net.Conn, error) { return ca, nil }, args)
+	if cerr != nil {
+		a.Close()
+	}
+	sr := <-sch
+	if cerr != nil || sr.err != nil {
+		if o4h.Hour() != hour0 {
+			return true
+		}
+		violate("real-client-rejects-real-server", "impl-oracle", fmt.Sprintf("Dial: %v, WrapConn: %v", cerr, sr.err), c)
+		return
+	}
+	up, down := rng.Bytes(c.Duplex), rng.Bytes(c.Duplex)
+	t0 := time.Now()
+	var wg sync.WaitGroup
+	errs := make([]error, 4)
+	gotS, gotC := make([]byte, len(up)), make([]byte, len(down))
+	r1, r2 := rng.Fork(), rng.Fork()
+	wg.Add(4)
+	// the first failure tears the pipe down, so that the other three goroutines end at once
+	var firstErr atomic.Int32
+	firstErr.Store(-1)
+	note := func(i int, e error) {
+		errs[i] = e
+		if e != nil && firstErr.CompareAndSwap(-1, int32(i)) {
+			a.Close()
+			b.Close()
+		}
+	}
+	go func() { defer wg.Done(); note(0, writeChunks(cc, up, r1)) }()
+	// a reader keeps draining after it has all the payload: the peer's last Write may still have
+	// padding frames to get rid of (a pipe Write blocks until somebody reads)
+	drain := func(conn net.Conn) { _, _ = io.Copy(io.Discard, conn) }
+	go func() { _, e := io.ReadFull(cc, gotC); note(1, e); wg.Done(); drain(cc) }()
+	go func() { defer wg.Done(); note(2, writeChunks(sr.conn, down, r2)) }()
+	go func() { _, e := io.ReadFull(sr.conn, gotS); note(3, e); wg.Done(); drain(sr.conn) }()
+	wg.Wait()
+	cc.Close()
+	sr.conn.Close()
+	if o4h.Hour() != hour0 {
+		return true
+	}
+	r.Case(c.key(), true)
+	if i := int(firstErr.Load()); i >= 0 {
+		violate("duplex-endpoint-error", "impl-oracle", fmt.Sprintf("real<->real full duplex (a Read and a Write in progress at once on each endpoint, %d bytes each way): %s failed first after %.1f s: %v", c.Duplex, []string{"client Write", "client Read", "server Write", "server Read"}[i], time.Since(t0).Seconds(), errs[i]), c)
+		// still let the reference look at what went over the wire up to here
+	}
+	failed := firstErr.Load() >= 0
+	if !failed && (!bytes.Equal(gotS, up) || !bytes.Equal(gotC, down)) {
+		violate("payload-not-delivered", "impl-oracle", fmt.Sprintf("real<->real full duplex: server read differs at %d of %d, client read differs at %d of %d", firstDiff(gotS, up), len(up), firstDiff(gotC, down), len(down)), c)
+		failed = true
+	}
+	// the reference follows from the recorded bytes
+	cw, sw := ca.Writes(), cb.Writes()
+	L, T := ref.Fresh("c"), ref.Fresh("t")
+	defer func() { ref.Drop(L); ref.Drop(T) }()
+	if len(cw) < 2 || len(sw) < 2 || !ref.CliNewKey(L, id.NodeID, id.Pub, kp.Private().Bytes()[:], kp.Public().Bytes()[:], kp.Representative().Bytes()[:], hour0) {
+		violate("concurrent-session-recording-short", "correspondence", fmt.Sprintf("%d client writes, %d server writes", len(cw), len(sw)), c)
+		return
+	}
+	if fr := ref.CliFeed(L, sw[0]); fr.Class != "ok" {
+		violate("ref-client-rejects-real-server", "impl-oracle", "cli.feed: "+fr.Raw, c)
+		return
+	}
+	if d := ref.Dec(L, nil); d.Class != "ok" || len(d.Pkts) != 1 || d.Pkts[0].Type != 1 {
+		violate("seed-frame-not-deployed-format", "impl-oracle", d.Raw, c)
+		return
+	}
+	var dw, uw []byte
+	for _, w := range sw[1:] {
+		dw = append(dw, w...)
+	}
+	for _, w := range cw[1:] {
+		uw = append(uw, w...)
+	}
+	ref.LinkSwap(L, T)
+	r.Validated(2)
+	if failed {
+		// the streams are truncated: look for the first malformed frame only
+		decodePrefix(c, "server", L, dw, down)
+		decodePrefix(c, "client", T, uw, up)
+		return false
+	}
+	if decodeAll(c, "server", L, dw, down) {
+		decodeAll(c, "client", T, uw, up)
+	}
+	return false
+}
+
+// decodePrefix: as decodeAll for a stream that was cut short by a failure: reports the first frame
+// that is malformed or whose payload is not what was written; a decode error at the cut is expected.
+func decodePrefix(c ccase, who, sess string, wire, want []byte) {
+	var got []byte
+	nf := 0
+	for off := 0; off < len(wire); off += 60000 {
+		end := off + 60000
+		if end > len(wire) {
+			end = len(wire)
+		}
+		d := ref.Dec(sess, wire[off:end])
+		for _, p := range d.Pkts {
+			nf++
+			if p.Type == 0 {
+				got = append(got, p.Payload...)
+			}
+			if !p.Zero || p.Type != 0 || len(got) > len(want) || !bytes.Equal(got, want[:len(got)]) {
+				violate("frame-payload-not-what-was-written", "impl-oracle",
+					fmt.Sprintf("%s (full duplex): frame %d is tag-valid but malformed: type %d, %d payload bytes, %d padding bytes (zero=%v), stream differs from what was written at offset %d", who, nf, p.Type, len(p.Payload), p.PadLen, p.Zero, firstDiff(got, want)), c)
+				return
+			}
+		}
+		if d.Class == "paylen" || d.Class == "pktlen" {
+			violate("frame-payload-not-what-was-written", "impl-oracle", fmt.Sprintf("%s (full duplex): frame %d is tag-valid but its packet length field is wrong (%s)", who, nf+1, d.Class), c)
+			return
+		}
+		if d.Class != "ok" {
+			return
+		}
+	}
 }
 
 // ---------------------------------------------------------------- conc: truly parallel sessions, re-derived afterwards
@@ -926,6 +1204,10 @@ func run(c ccase) {
 			if !runConc(c) {
 				return
 			}
+		} else if c.Scenario == "duplex" {
+			if !runDuplex(c) {
+				return
+			}
 		} else if !runCase(c) {
 			return
 		}
@@ -964,6 +1246,19 @@ func main() {
 	} else {
 		concBatches(rng.Fork(), r.Scale(3, 10))
 	}
+	// real <-> real, full duplex (a reader and a writer goroutine on each endpoint at the same time)
+	for i, nd := 0, r.Scale(4, 40); i < nd; i++ {
+		dc := ccase{Scenario: "duplex", CaseSeed: rng.U64(), CliIat: []int{0, 1, 0, 0}[i%4], SrvIat: []int{0, 0, 1, 0}[i%4],
+			Format: []string{"cert", "legacy"}[i%2], Duplex: 256 * 1024}
+		if r.Mode == "search" {
+			dc.Duplex = 1024 * 1024
+		}
+		r.Count("scenario", "duplex")
+		if nv := r.NumViolations(); nv > 0 && i >= 3 && r.Mode == "search" {
+			break
+		}
+		run(dc)
+	}
 	n := r.Scale(150, 2400)
 	scen := []string{"rc-ls", "lc-rs", "rr"}
 	pads := []string{"rand", "rand", "min", "max"}
@@ -979,6 +1274,11 @@ func main() {
 		r.Count("hour_offset", fmt.Sprintf("%s%+d", c.Scenario, c.HourOff))
 		if i%5 == 0 { // decorrelate the IAT modes from the scenario rotation
 			c.CliIat, c.SrvIat = rng.Intn(3), rng.Intn(3)
+		}
+		// full-duplex phase against the reference peer (not in paranoid IAT mode: tiny segments with
+		// a sleep each make 48 KiB take arbitrarily long)
+		if c.Scenario != "rr" && i%4 == 0 && c.CliIat != 2 && c.SrvIat != 2 {
+			c.Duplex = 48 * 1024
 		}
 		r.Count("scenario", c.Scenario)
 		r.Count("iat", fmt.Sprintf("cli%d-srv%d", c.CliIat, c.SrvIat))
